@@ -194,7 +194,10 @@ def check_one(x, u, zone, unit, op, ws):
         lo_, hi_ = (ru, u) if ru <= u else (u, ru)
         xw = T.naive_us(loc)
         xk, xpre, _ = T.classify_wall(xw, zone)
-        if xk == "repeated" and not T.transition_between(lo_, hi_, zone) and unit_id(T.fields(r), unit, ws) == unit_id(f, unit, ws) and (ru <= u if op == "start_of" else ru >= u):
+        if unit in ("second", "minute", "hour") and xk == "repeated" and not T.transition_between(lo_, hi_, zone) and unit_id(T.fields(r), unit, ws) == unit_id(f, unit, ws) \
+                and (ru <= u if op == "start_of" else ru >= u):
+            # pinned by tests/datetime/test_start_end_of.py (test_start_of_on_date_after_transition, test_end_of_on_date_before_transition): inside a repeated
+            # period a unit shorter than a day stays in x's own occurrence
             return "repeated-boundary:occurrence-of-x"
     pinned = T.expected_construct(W, zone, x.fold)[1]
     if ru == pinned:
